@@ -74,7 +74,7 @@ def scenario_from_pickle(res, sim):
                         out.append((str(site), str(eqg), str(comp), str(src), e._emissions_id,
                                     (e._start_date - res.start).days, float(e._rate), bool(e._repairable),
                                     int(getattr(e, "_nrd", getattr(e, "_duration", 0))),
-                                    int(getattr(e, "_repair_delay", 0))))
+                                    float(getattr(e, "_repair_delay", 0))))
     return out
 
 
@@ -141,7 +141,7 @@ class Case:
         for em in self.ems:
             cost = rcost.get(em["g"], 0.0)
             lines.append("em %d %d %d %d %d %d %d %d %d %d %d %d" % (
-                em["start"], em["nrd"], em["repair_delay"], int(em["repairable"]), int(em["intermittent"]),
+                em["start"], em["nrd"], self.ceil_days(em["repair_delay"]), int(em["repairable"]), int(em["intermittent"]),
                 em["adur"], em["idur"], exact_int(em["rate"], RATE_SCALE, "rate"), em["site"], em["eqg"], em["comp"],
                 exact_int(cost, COST_SCALE, "repair cost")))
         lines += src_lines + layout_lines
@@ -283,6 +283,14 @@ class Case:
         self.lines = lines
 
     @staticmethod
+    def ceil_days(x):
+        """a fractional repair delay d acts as ceil(d): `days_since_tagged >= d + reporting_delay` over integers"""
+        import math
+
+        f = Fraction(x or 0)
+        return int(math.ceil(f))
+
+    @staticmethod
     def shift_of(true_rate, measured):
         """the integer quantification shift (percent) with measured = max(true * (1 + k/100), 0) exactly;
         None when nothing was measured (true rate 0 and measured 0: the unit was not detected or is empty)"""
@@ -300,7 +308,7 @@ class Case:
         """the scenario the run worked on == the pickled scenario of the run"""
         pk = scenario_from_pickle(self.res, self.sim)
         mine = [(e["site_id"], e["eqg_id"], e["comp_id"], e["src_id"], e["id"], e["start"], e["rate"], e["repairable"],
-                 e["nrd"], e["repair_delay"]) for e in self.ems]
+                 e["nrd"], float(e["repair_delay"] or 0)) for e in self.ems]
         return pk == mine, len(pk), len(mine)
 
     # -- model output ----------------------------------------------------------------------------
